@@ -394,7 +394,19 @@ class DiagLayer:
             except DecodeError:
                 # check if the message can be decoded as a global
                 # negative response for the service
+                request_prefix = b''
+                if service.request is not None:
+                    request_prefix = service.request.coded_const_prefix()
+
                 for gnr in self.global_negative_responses:
+                    # a global negative response only applies if the
+                    # message starts with its constant prefix. (A
+                    # mismatch of constant parameters merely causes a
+                    # warning when decoding the message.)
+                    gnr_prefix = gnr.coded_const_prefix(request_prefix=request_prefix)
+                    if bytes(message[:len(gnr_prefix)]) != bytes(gnr_prefix):
+                        continue
+
                     try:
                         decoded_gnr = gnr.decode(message)
                         if not isinstance(decoded_gnr, dict):
